@@ -9,8 +9,24 @@ import PPProofs.Props.C20
 
 `Props/C20.lean` shows by witnesses that these clauses are false of the current converter on particular
 grammar shapes.  Here each clause is proved for ALL grammars (node tables), all options and every fuel
-at which the converter model returns, under a hypothesis on the node table that excludes the
-registered shape.
+at which the converter model returns, under a decidable hypothesis on the node table that excludes the
+registered shape (each hypothesis is shown to fail on the corresponding witness):
+
+* `links_resolve_partial`              hypothesis `noEllipsisName g` (no element is custom-named "...")
+* `root_first_partial`                 hypothesis `rootFirstHyp g o root` (custom-named root worth extracting,
+                                       shown, name not shared and not "...")
+* `root_first_unnamed_partial`         hypothesis `offCycleRootHyp g o root Dl` (unnamed, drawn root on no cycle)
+* `no_empty_placeholder_partial`,
+  `no_empty_placeholder_output_partial`,
+  `no_empty_placeholder_tree_partial`  hypothesis `drawsAll g o` (every element draws something): all partials
+                                       of the final heap and all diagram contents are filled with references,
+                                       no returned tree contains `""`; NOT proved: `resolve` never yields
+                                       `rawNone` (its fuel `|heap|+1` suffices, no dangling reference)
+Invariants (Lemmas/DiagramLinks, DiagramRoot, DiagramRoot0, DiagramFilled, DiagramContent): `conv_step`
+(every NonTerminal carries the custom name of an extracted or pending element; a returning call leaves
+no new pending element), `conv_RInv` / `conv_RInv0_on` (the root keeps index 1, all others ≥ 2, diagram
+keys distinct), `conv_HS` (a returning call returns an item, never loses a reference, leaves its partials
+filled), `conv_KD` (complete lookup entries point to filled partials; diagram contents are references).
 -/
 namespace PP.Diagram
 
